@@ -187,7 +187,7 @@ func runC08(c *sim.Ctx) *sim.Violation {
 			// layer does): it is still the transport's failure, and errors.Is(err, E)
 			// must hold for THAT value
 			fe, _ := link.NewFaultErr(c, fmt.Sprintf("link failure #%d", c.Seq()))
-			E, wireE = fe, fe.Wire()
+			E, wireE = fe.E(), fe.Wire()
 			if _, isOp := wireE.(*net.OpError); isOp {
 				E = wireE // the value the reader returns IS the error E of the property
 			}
